@@ -20,8 +20,11 @@
    (round / slot windows, message-count limits and "already advanced" are in the `ignore` class.)
    NoHonestReject says no order of arrival makes a correct peer's gate reject a message in `sent`.             *)
 EXTENDS QBFT
-CONSTANT Lossy    \* TRUE: a message may miss its round at some recipients (late or lost); every message is still
+CONSTANT Lossy,   \* TRUE: a message may miss its round at some recipients (late or lost); every message is still
                   \* seen by the gates inside its window.  FALSE: the strict timely class of the property.
+         LateRounds \* rounds whose leader is LATE: its proposal reaches nobody before the round's deadline (the gates
+                  \* still see it inside its window).  {} in the strict class.  With LateRounds = 1..k-1 every execution
+                  \* climbs to round k: rounds up to the role's maximum are reached (replay class "high rounds").
 VARIABLES gr, due
 tvars == <<st, sent, byzUsed, act, gr, due>>
 tview == <<st, sent, byzUsed, gr, due>>
@@ -30,6 +33,7 @@ CanTake(i, m) ==
     LET n == st[i] IN
     /\ n.started
     /\ CASE m.type = "proposal" ->
+               /\ m.round \notin LateRounds
                /\ Justified(m.rcj, m.pj, m.pjpr, m.pjpv, m.round, m.value)
                /\ m.round >= n.round /\ m.signer = Leader(m.round)
                /\ ((n.acc = NoProp /\ m.round = n.round) \/ m.round > n.round)
@@ -50,6 +54,7 @@ TDeliver(i) ==
        \/ RecvDecided(i)
        \* a faulty member inside the timing assumptions (ByzBudget > 0): selective, equivocating, but timely
        \/ RecvByzProposal(i) \/ RecvByzRC(i)
+    /\ (act'.name = "RecvProposal") => (act'.round \notin LateRounds)
     /\ UNCHANGED <<gr, due>>
 (* the deadline of round gr passes *)
 EndRound ==
